@@ -202,6 +202,7 @@ func main() {
 	}
 	run.Traces(int64(len(cases)))
 	grafts(tier)
+	gatedRelease()
 	sizeSweep(tier)
 	concurrent(tier)
 	run.Exhaustive = true
